@@ -233,19 +233,22 @@ impl Property for C08 {
         let out = replace_numbers_in_text(&text, lg, 0.0);
         // tokenizer pipeline with the language's annotation: words at even indices, single spaces at odd ones
         let (toks, occ) = scan(&text, lg, 0.0);
-        if toks.len() != 2 * w.len() - 1 {
-            return Err(format!("[{}] {:?}: unexpected tokenisation ({} tokens for {} words)", l, text, toks.len(), w.len()));
+        // word k of the input is the k-th word token (robust to how the tokenizer cuts separators)
+        let word_tok: Vec<usize> = (0..toks.len()).filter(|&i| is_word(&toks[i].text)).collect();
+        if word_tok.len() != w.len() || word_tok.iter().zip(&w).any(|(&i, x)| &toks[i].text != x) {
+            return Err(format!("[{}] {:?}: the tokenizer does not return the {} words as word tokens", l, text, w.len()));
         }
+        let word_of = |tok: usize| word_tok.iter().position(|&i| i == tok);
         let r = rev(l);
         let zws = &vocab_of(l).zeros;
         let mut covered = vec![false; w.len()];
         let fail = |why: String| Err(format!("[{}] {:?} (a={} b={} conj={}) -> {:?}: {}", l, text, c.a, c.b, c.conj, out, why));
         for o in &occ {
-            if o.start % 2 != 0 || o.end % 2 != 1 {
+            let (Some(k0), Some(k1)) = (word_of(o.start), if o.end > o.start { word_of(o.end - 1) } else { None }) else {
                 return fail(format!("occurrence {:?} does not begin and end on words", o));
-            }
-            let ws = &w[o.start / 2..=(o.end - 1) / 2];
-            for k in o.start / 2..=(o.end - 1) / 2 {
+            };
+            let ws = &w[k0..=k1];
+            for k in k0..=k1 {
                 if covered[k] {
                     return fail("a word is covered twice".into());
                 }
@@ -280,7 +283,7 @@ impl Property for C08 {
         }
         for (k, x) in w.iter().enumerate() {
             if !covered[k] && x != cj {
-                if toks[2 * k].nan && l == "fr" && x == "neuf" {
+                if toks[word_tok[k]].nan && l == "fr" && x == "neuf" {
                     // set aside by the documented new/nine heuristic
                     obs.exclude("fr-neuf-heuristic-set-aside");
                     return Ok(());
